@@ -109,8 +109,22 @@ Compare(S, res, in, ob, hist2) ==
       mintExp == IF h >= TAct("V204") /\ h < TAct("V204Burn") THEN DOMAIN MintTable \ TAssets ELSE {}
       mintIss == IF DOMAIN ob.mintOther # mintExp \/ \E t \in mintExp \cap DOMAIN ob.mintOther : ob.mintOther[t] # TMintAmt(t)
                  THEN {<<"C15", <<"minted supply outside the observed assets differs from the 2.0.4 table", h>>>>} ELSE {}
+      \* bank row of the block (C16): amount available, used, requested
+      bankIss == IF res.info.bankRow
+                 THEN (IF ~ob.bank.present \/ ob.bank.amt.neg \/ ob.bank.used.neg \/ ob.bank.req.neg
+                          \/ ob.bank.amt.v # Sn.bank[h].amt \/ ob.bank.used.v # Sn.bank[h].used \/ ob.bank.req.v # Sn.bank[h].req
+                       THEN {<<"C16", <<"bank row differs (amount, used, requested)", h>>>>} ELSE {})
+                 ELSE (IF ob.bank.present THEN {<<"C16", <<"bank row outside the bank era / for an unrated block", h>>>>} ELSE {})
+      \* recorded PEG yield and refund of every request (C16, C17)
+      pegIss == UNION {LET o == res.info.pegOut[i] IN
+                       IF o.hash \in DOMAIN hist2 /\ o.idx + 1 <= Len(hist2[o.hash].txs)
+                          /\ (hist2[o.hash].txs[o.idx + 1].toAmt # o.yield
+                              \/ Len(hist2[o.hash].txs[o.idx + 1].outs) # 1
+                              \/ hist2[o.hash].txs[o.idx + 1].outs[1].amt # o.refund)
+                       THEN {<<"C16", <<"recorded PEG yield / refund differs", h, o.hash, o.idx>>>>} ELSE {}
+                       : i \in 1..Len(res.info.pegOut)}
       syncIss == IF ob.synced # h THEN {<<"C02", <<"synced height is not the block height", h, ob.synced>>>>} ELSE {}
-  IN  balIss \cup outIss \cup toIss \cup holdIss \cup relIss \cup wIss \cup snapIss \cup syncIss \cup mintIss
+  IN  balIss \cup outIss \cup toIss \cup holdIss \cup relIss \cup wIss \cup snapIss \cup syncIss \cup mintIss \cup bankIss \cup pegIss
 
 \* ------------------------------------------------------------------ behaviour
 Init == /\ l = 1 /\ cur = InitState /\ hist = EmptyFn /\ txh = {} /\ nIss = 0 /\ dig = EmptyFn
